@@ -7,3 +7,5 @@ import "github.com/consensys/gnark-crypto/ecc/bw6-633/fr"
 func verifBlinding(_, _, _, _ []fr.Element) {}
 
 func verifPostSolve(_, _, _ []fr.Element) {}
+
+func verifVerifierState(_, _, _, _, _, _ fr.Element) {}
